@@ -35,7 +35,9 @@ CONSTANTS
                   \*   "reject_temp": the validator's error calls itself temporary (Temporary() / Timeout() true): a verdict all the same
                   \*   "transport_ctx": Do fails with a deadline error that is not the request context's
     MaxAttempts,  \* scripted attempts per history; the attempt after the last one meets a cancelled context
-    CancelInWait  \* TRUE: a cancellation may also arrive during a wait
+    CancelInWait, \* TRUE: a cancellation may also arrive during a wait
+    MaxConnects   \* Connect calls on the one Connection: after Connect returned for another reason than the context, the caller may
+                  \* call it again (a new backoff, the Connection's state - last event ID, "this is a retry" - persists)
 
 \* Intervals are in nanoseconds, like time.Duration, so that growth by the multiplier truncates exactly as
 \* the code's float arithmetic does.  TLC integers are 32 bit: a server retry value of more than two
@@ -52,6 +54,7 @@ VARIABLES
     cur,          \* the attempt in progress: [body, end]
     curErr,       \* class of the error of the attempt that just ended
     result,       \* what Connect returned ("" while running)
+    results,      \* what the earlier Connect calls on this Connection returned
     everConnected,\* ghost: a connection succeeded at least once
     reqs,         \* observation: per attempt [hdr, getBody]  (hdr: <<"absent">> or <<"value", tokens>>)
     events,       \* observation: events dispatched to callbacks, over all connections
@@ -72,7 +75,7 @@ Init ==
     /\ cfg \in Cfgs /\ pc = "reset"
     /\ lastEventID = <<>> /\ isRetry = FALSE
     /\ interval = (IF cfg.initial <= 0 THEN DefaultInitial ELSE cfg.initial) /\ numRetries = 0
-    /\ attempts = 0 /\ cur = [body |-> <<>>, end |-> "clean", ctxdone |-> FALSE] /\ curErr = "" /\ result = R("")
+    /\ attempts = 0 /\ cur = [body |-> <<>>, end |-> "clean", ctxdone |-> FALSE] /\ curErr = "" /\ result = R("") /\ results = <<>>
     /\ everConnected = FALSE
     /\ reqs = <<>> /\ events = <<>> /\ waits = <<>> /\ hist = <<>>
 
@@ -94,7 +97,7 @@ ResetRequest ==
           /\ reqs' = Append(reqs, [hdr |-> IF lastEventID = <<>> THEN <<"absent">> ELSE <<"value", lastEventID>>,
                                    getBody |-> IF cfg.body = "getbody" THEN 1 ELSE 0])
           /\ UNCHANGED <<isRetry, result>>
-    /\ UNCHANGED <<cfg, lastEventID, interval, numRetries, attempts, cur, curErr, everConnected, events, waits, hist>>
+    /\ UNCHANGED <<cfg, results, lastEventID, interval, numRetries, attempts, cur, curErr, everConnected, events, waits, hist>>
 
 \* HTTPClient.Do and the response validator
 Do(o, body, end) ==
@@ -113,7 +116,7 @@ Do(o, body, end) ==
                [] o = "cancel_do" -> /\ Done(R("ctx")) /\ UNCHANGED <<cur, curErr>>
                [] o \in {"reject", "reject_temp"} -> /\ Done(R("validator")) /\ UNCHANGED <<cur, curErr>>
                [] o = "stream"    -> /\ cur' = [body |-> body, end |-> end, ctxdone |-> FALSE] /\ pc' = "read" /\ UNCHANGED <<curErr, result>>
-    /\ UNCHANGED <<cfg, lastEventID, isRetry, interval, numRetries, everConnected, reqs, events, waits>>
+    /\ UNCHANGED <<cfg, results, lastEventID, isRetry, interval, numRetries, everConnected, reqs, events, waits>>
 
 Digits(t) == CASE t = "d1" -> <<1>> [] t = "d07" -> <<0, 7>> [] t = "d0" -> <<0>> [] t = "d2" -> <<2>> [] t = "d3" -> <<3>>
               [] t = "d4" -> <<4>> [] t = "d5" -> <<5>> [] t = "d6" -> <<6>> [] t = "d7" -> <<7>> [] t = "d8" -> <<8>> [] t = "d9" -> <<9>>
@@ -144,7 +147,7 @@ Read ==
     /\ everConnected' = TRUE
     /\ cur' = [cur EXCEPT !.ctxdone = (cur.end = "cancel_eof" \/
                                         (cur.end = "cancel_cb" /\ Interpret(cur.body, "clean", "conn", lastEventID).out # <<>>))]
-    /\ UNCHANGED <<cfg, isRetry, attempts, reqs, waits, hist>>
+    /\ UNCHANGED <<cfg, results, isRetry, attempts, reqs, waits, hist>>
 
 Grow(i) == IF cfg.maxInterval > 0 /\ i * EffMulNum >= cfg.maxInterval * EffMulDen THEN cfg.maxInterval
            ELSE IF i >= (HUGE \div EffMulNum) * EffMulDen THEN HUGE    \* beyond what TLC's integers (and the driver's patience) hold
@@ -159,20 +162,30 @@ BackoffNext ==
             /\ waits' = Append(waits, [err |-> curErr, base |-> interval])
             /\ interval' = IF interval >= HUGE THEN HUGE ELSE Grow(interval)
             /\ pc' = "wait" /\ UNCHANGED result
-    /\ UNCHANGED <<cfg, lastEventID, isRetry, attempts, cur, curErr, everConnected, reqs, events, hist>>
+    /\ UNCHANGED <<cfg, results, lastEventID, isRetry, attempts, cur, curErr, everConnected, reqs, events, hist>>
 
 \* the timer fires ...
 Wait ==
     /\ pc = "wait" /\ waits[Len(waits)].base < HUGE /\ ~cur.ctxdone
     /\ pc' = "reset"
-    /\ UNCHANGED <<cfg, lastEventID, isRetry, interval, numRetries, attempts, cur, curErr, result, everConnected, reqs, events, waits, hist>>
+    /\ UNCHANGED <<cfg, results, lastEventID, isRetry, interval, numRetries, attempts, cur, curErr, result, everConnected, reqs, events, waits, hist>>
 \* ... or the context is cancelled first (always the case for a wait of 10^12 ms)
 CancelDuringWait ==
     /\ pc = "wait" /\ (CancelInWait \/ waits[Len(waits)].base >= HUGE \/ cur.ctxdone)
     /\ Done(R("ctx")) /\ hist' = Append(hist, [o |-> "cancel_wait", body |-> <<>>, end |-> "clean"])
-    /\ UNCHANGED <<cfg, lastEventID, isRetry, interval, numRetries, attempts, cur, curErr, everConnected, reqs, events, waits>>
+    /\ UNCHANGED <<cfg, results, lastEventID, isRetry, interval, numRetries, attempts, cur, curErr, everConnected, reqs, events, waits>>
+
+\* Connect has returned (not because of the context) and is called again on the same Connection: a new backoff controller;
+\* the Connection remembers the last event ID and that the next attempt is a retry (header set, body re-obtained)
+Reconnect ==
+    /\ pc = "done" /\ result.kind \in {"validator", "exhausted"} /\ Len(results) + 1 < MaxConnects
+    /\ results' = Append(results, result) /\ result' = R("") /\ pc' = "reset"
+    /\ interval' = EffInitial /\ numRetries' = 0 /\ curErr' = ""
+    /\ hist' = Append(hist, [o |-> "reconnect", body |-> <<>>, end |-> "clean"])
+    /\ UNCHANGED <<cfg, lastEventID, isRetry, attempts, cur, everConnected, reqs, events, waits>>
 
 Next ==
+    \/ Reconnect
     \/ ResetRequest
     \/ \E o \in Outcomes \cup {"cancel_do"}, b \in Bodies \cup {<<>>}, e \in Ends \cup {"clean"} : Do(o, b, e)
     \/ Read \/ BackoffNext \/ Wait \/ CancelDuringWait
@@ -197,7 +210,7 @@ Reason ==
             /\ result.err \in {"transport", "transport_ctx", "eof", "unexpected_eof", "boom", "errctx", "wrapeof"}
             /\ (cfg.maxRetries < 0 \/ numRetries = cfg.maxRetries))
 \* C11: a permanent failure is never followed by another attempt; a retryable one always by BackoffNext
-NoRetryAfterPermanent == \A i \in 1..(Len(hist) - 1) : hist[i].o \notin {"reject", "reject_temp", "cancel_do", "cancel_wait"}
+NoRetryAfterPermanent == \A i \in 1..(Len(hist) - 1) : hist[i].o \in {"reject", "reject_temp", "cancel_do", "cancel_wait"} => hist[i + 1].o = "reconnect"
 \* C12: at most MaxRetries waits in a row without a successful connection in between (none if negative)
 RetryCount == /\ (cfg.maxRetries < 0 => waits = <<>>)
               /\ (cfg.maxRetries > 0 => numRetries <= cfg.maxRetries)
@@ -210,6 +223,6 @@ BodyRule == \A i \in 2..Len(reqs) : cfg.body = "getbody" <=> reqs[i].getBody = 1
 
 -----------------------------------------------------------------------------
 ExportRec == [cfg |-> cfg, script |-> hist, reqs |-> reqs, events |-> events, waits |-> waits,
-              result |-> result, attempts |-> attempts, maxAttempts |-> MaxAttempts]
+              result |-> result, results |-> results, attempts |-> attempts, maxAttempts |-> MaxAttempts]
 Export == pc = "done" => PrintT(ToJson(ExportRec))
 =============================================================================
